@@ -90,6 +90,10 @@ pub struct Shared {
     pub getinfo_delay_ms: u64,
     /// E2E only: the autopilot leaves `pay` requests unanswered while this is set
     pub hold_pays: bool,
+    /// E2E only: waitsendpay stays unanswered while its part is pending (instead of error 200)
+    pub hold_waitsendpay: bool,
+    /// E2E only: listdatastore is answered with an RPC error carrying this message
+    pub err_text: Option<String>,
 }
 
 impl Shared {
@@ -342,6 +346,8 @@ impl World {
             local_id: local_pubkey().to_string(),
             getinfo_delay_ms: 0,
             hold_pays: false,
+            hold_waitsendpay: false,
+            err_text: None,
         }));
         let n = scn.htlcs.len();
         let c = SOCK_COUNTER.fetch_add(1, std::sync::atomic::Ordering::Relaxed);
@@ -573,7 +579,8 @@ impl World {
         let _join = watcher.start(rx).await.expect("block watcher start");
         let watcher = Arc::new(watcher);
         let store = Arc::new(ClnDatastore::new(rpc.clone()));
-        let provider = Arc::new(PayPaymentProvider::new(rpc.clone(), Duration::from_secs(60), false));
+        let (retry_for, xpay) = self.scn.pay_opts.unwrap_or((60, false));
+        let provider = Arc::new(PayPaymentProvider::new(rpc.clone(), Duration::from_secs(retry_for as u64), xpay));
         let life_now = self.shared.lock().unwrap().life;
         let c = self.scn.cfg_at(life_now).clone();
         let mgr = Arc::new(HtlcManager::new(HtlcManagerParams {
@@ -745,7 +752,9 @@ impl World {
             if deleting {
                 r.method = "datastore".into();
             }
+            let store_fails = self.scn.fail_store.map(|p| self.scn.payments[p as usize % self.scn.payments.len()].hash()).map(|h| r.hash == Some(h) && matches!(r.method.as_str(), "datastore" | "listdatastore")).unwrap_or(false);
             let (reply, applied, fault) = match r.method.as_str() {
+                _ if store_fails => (rpc_error(-1, "injected: the store RPCs of this hash fail"), false, true),
                 "datastore" => {
                     let idx = s.node.writes_seen;
                     s.node.writes_seen += 1;
